@@ -352,4 +352,3 @@ func problemPaths(ps []*core.Problem) []string {
 	sort.Strings(out)
 	return out
 }
-
